@@ -42,7 +42,7 @@ class FrameSim(Sim):
     PROBES = ["operand_is_view_of_other_operand", "operand_reused_by_2_ops", "caller_g_reachable_from_second_sweep", "conv_with_bias",
               "batch_norm_training_running_stats", "batch_norm_eval", "class_loss_with_target_tensor", "unfold_dim_result_consumed",
               "layout_F", "layout_strided", "layout_neg", "layout_offset", "repeat_op_bit_identical", "clone_detach_independent",
-              "optimizer_step", "initialiser", "op_raised_nothing_changed", "forward_fault", "sweep_fault", "backward_with_caller_g",
+              "optimizer_step", "initialiser", "op_raised_nothing_changed", "forward_fault", "sweep_fault", "backward_with_caller_g", "caller_g_of_other_dtype", "earlier_op_issued_again_later",
               "second_backward_same_graph", "zero_reset", "no_grad_span", "frozen_leaf_with_old_gradient"]
     RULE = ("one run = a seeded history of leaf/op/backward/zero/step/init/BN events over tensors in mixed memory layouts with views; distinct = "
             "hash of the sequence of (event kind, op, operand aliasing pattern, layouts); non-trivial = at least one backward with a "
@@ -147,7 +147,7 @@ class FrameSim(Sim):
             root = rng.choice(cands)
             t = G.T[root]
             g = None if (t.data.size == 1 and rng.random() < 0.3) else enc(small_values(rng, t.data.shape, np.float64, -2, 2))
-            ev = {"k": "backward", "root": root, "g": g, "layout": rng.choice(["C", "C", "F", "strided", "offset"])}
+            ev = {"k": "backward", "root": root, "g": g, "layout": rng.choice(["C", "C", "F", "strided", "offset"]), "g_other_dtype": rng.random() < 0.25}
             if kn["faulty"] and rng.random() < 0.2:
                 ev["fault"] = {"kind": rng.choice(["alloc", "interrupt", "exit"]), "at": rng.randint(1, 8)}
                 if rng.random() < 0.5:
@@ -158,6 +158,9 @@ class FrameSim(Sim):
         if r < 0.06:
             fl = [i for i in leaves if G.T[i].data.dtype.kind == "f"]
             return {"k": "zero", "ids": sorted(rng.sample(fl, rng.randint(1, len(fl))))}
+        if getattr(st, "first_results", None) and rng.random() < 0.05:
+            # an EARLIER operation issued again now - other work (other dtypes, untracked calls, sweeps, steps) has happened in between
+            return {"k": "again", "of": rng.choice(sorted(st.first_results))}
         if r < 0.12:
             if st.opt is None:
                 fl = [i for i in leaves if G.T[i].data.dtype.kind == "f" and not st.bn.get(i)]
@@ -417,6 +420,12 @@ class FrameSim(Sim):
         self._frame(st, f"forward of {name}", write)
         for o in ev["out"]:
             self._reg_tensor(st, o)
+        if not write and name not in ("dropout",):
+            if not hasattr(st, "first_results"):
+                st.first_results = {}
+            if len(st.first_results) < 12:
+                st.first_results[ev["out"][0]] = {"ev": ev, "ins": [self._take(G.T[i].data) for i in ins], "outs": [self._take(t.data) for t in res],
+                                                  "modes": st.world.modes()}
         if ev.get("repeat") and not write:
             first = [self._take(t.data) for t in res]
             for rep in range(int(ev["repeat"])):
@@ -536,6 +545,32 @@ class FrameSim(Sim):
             stack.extend(G.meta[i]["inputs"])
         return seen
 
+    def _ev_again(self, st, ev):
+        G, SG = st.G, st.SG
+        fr = getattr(st, "first_results", {}).get(ev["of"])
+        if fr is None:
+            st.skipped += 1
+            return
+        e0 = fr["ev"]
+        ins = e0["in"]
+        if any(i not in G.T for i in ins) or [self._take(G.T[i].data) for i in ins] != fr["ins"] or st.world.modes() != fr["modes"]:
+            st.skipped += 1          # an operand was legitimately changed since (step, initialiser): not "unchanged operands"
+            return
+        self._pre(st, [])
+        try:
+            with quiet():
+                again = ops.as_list(ops.apply_op(SG, e0["op"], [G.T[i] for i in ins], e0["args"]))
+        except SimFault:
+            raise
+        except Exception as e:
+            st.fail("C11.repeatable", f"{e0['op']} succeeded earlier and raised {type(e).__name__} when issued again later on unchanged operands")
+        st.probes["earlier_op_issued_again_later"] += 1
+        for k, (a, t) in enumerate(zip(fr["outs"], again)):
+            if self._take(t.data) != a:
+                st.fail("C11.repeatable", f"{e0['op']}: issued again later on unchanged operands (after other library calls in between) it gave different bytes "
+                        f"(output {k}): a result depends on what other calls left behind in the library", op=e0["op"])
+        self._frame(st, f"{e0['op']} issued again", [])
+
     def _ev_backward(self, st, ev):
         G, SG = st.G, st.SG
         root = ev["root"]
@@ -553,7 +588,12 @@ class FrameSim(Sim):
         write = [("grad", i) for i in reach if G.T[i].requires_grad]
         gt = None
         if g is not None:
-            g = g.astype(t.data.dtype) if t.data.dtype != g.dtype else g
+            if ev.get("g_other_dtype") and t.data.dtype.kind == "f":
+                # a seed of the OTHER floating dtype than the root (a float64 weight vector on a float32 graph, or the reverse)
+                g = g.astype(np.float32 if t.data.dtype == np.float64 else np.float64)
+                st.probes["caller_g_of_other_dtype"] += 1
+            else:
+                g = g.astype(t.data.dtype) if t.data.dtype != g.dtype else g
             st.keep.append(g)
             gt = SG.Tensor(g)
             n = st.n_g
